@@ -3,11 +3,13 @@
 package fox
 
 import (
+	"io"
 	"strconv"
 	"strings"
 	"unsafe"
 
 	"github.com/tigerwill90/fox/internal/simplelru"
+	"github.com/tigerwill90/fox/internal/slogpretty"
 )
 
 // This file only exists when the package is built with the `verif` tag. It exports read-only inspection helpers
@@ -342,3 +344,12 @@ func VerifLRURun(size int, ops string) (out string) {
 
 // VerifWritableCacheSize is the capacity of the cache of a write transaction.
 func VerifWritableCacheSize() int { return defaultModifiedCache }
+
+// VerifSwapDefaultLogOutput redirects the two writers of the package-wide default log handler (the one behind Logger,
+// Recovery and CustomRecovery) and returns a function that restores them. It is not safe for concurrent use with requests
+// that log through the default handler.
+func VerifSwapDefaultLogOutput(stdout, stderr io.Writer) (restore func()) {
+	wo, we := slogpretty.DefaultHandler.Wo, slogpretty.DefaultHandler.We
+	slogpretty.DefaultHandler.Wo, slogpretty.DefaultHandler.We = stdout, stderr
+	return func() { slogpretty.DefaultHandler.Wo, slogpretty.DefaultHandler.We = wo, we }
+}
